@@ -23,9 +23,17 @@ pub struct Assembled {
 }
 
 /// What the `lace compile` / `lace run` path does with a source text.
+thread_local! {
+    /// the stage `assemble_real` was in when it returned an error: 0 lex/parse, 1 backpatch, 2 emit
+    static STAGE: std::cell::Cell<u8> = const { std::cell::Cell::new(0) };
+}
+
 fn assemble_real(src: &'static str) -> Result<Assembled, Report> {
+    STAGE.with(|s| s.set(0));
     let mut air = lace::AsmParser::new(src)?.parse()?;
+    STAGE.with(|s| s.set(1));
     air.backpatch()?;
+    STAGE.with(|s| s.set(2));
     let mut words = Vec::with_capacity(air.len());
     let mut spans = Vec::with_capacity(air.len());
     for stmt in &air {
@@ -38,7 +46,6 @@ fn assemble_real(src: &'static str) -> Result<Assembled, Report> {
 /// Kind identifier of a report: one per error constructor of lace.
 pub fn diag_kind(r: &Report) -> String {
     let code = r.code().map(|c| c.to_string());
-    let first_label = r.labels().and_then(|mut l| l.next()).and_then(|l| l.label().map(|s| s.to_string()));
     match code.as_deref() {
         Some("lex::dir") => "lexDir".into(),
         Some("lex::str_lit") => "lexStr".into(),
@@ -50,26 +57,19 @@ pub fn diag_kind(r: &Report) -> String {
         Some("parse::duplicate_label") => "dupLabel".into(),
         Some("parse::unexpected_eof") => "eof".into(),
         Some("parse::too_many_statements") => "tooMany".into(),
-        Some("parse::unexpected_token") => {
-            if first_label.as_deref() == Some("out-of-range literal") {
-                "litRange".into()
-            } else {
-                "unexpected".into()
-            }
-        }
+        // (an out-of-range literal and any other unexpected token share this code; they differ in
+        // the wording of their labels only, which is free: one kind here, and `check` reads the
+        // model's `litRange` as `unexpected` too)
+        Some("parse::unexpected_token") => "unexpected".into(),
         Some(other) => format!("code:{other}"),
-        None => {
-            let msg = r.to_string();
-            if msg.starts_with("Origin set twice") {
-                "origTwice".into()
-            } else if msg.starts_with("Label not found") {
-                "labelNotFound".into()
-            } else if msg.starts_with("Difference between label") {
-                "offsetTooLarge".into()
-            } else {
-                format!("msg:{}", msg.chars().take(24).filter(|c| c.is_ascii_alphanumeric()).collect::<String>())
-            }
-        }
+        // the three errors without a diagnostic code are told apart by the stage that raised them
+        // (their wording is free): a second `.orig` while parsing, an undefined label while
+        // backpatching, a label out of reach while emitting
+        None => match STAGE.with(|s| s.get()) {
+            0 => "origTwice".into(),
+            1 => "labelNotFound".into(),
+            _ => "offsetTooLarge".into(),
+        },
     }
 }
 
